@@ -2,6 +2,7 @@ package hls
 
 import (
 	"context"
+	"sync/atomic"
 	"errors"
 	"net/http"
 	"net/http/httptest"
@@ -10,71 +11,113 @@ import (
 	"github.com/gin-gonic/gin"
 	"github.com/google/uuid"
 
+	"github.com/bluenviron/gortsplib/v5/pkg/description"
+
 	"github.com/bluenviron/mediamtx/internal/auth"
+	"github.com/bluenviron/mediamtx/internal/conf"
 	"github.com/bluenviron/mediamtx/internal/defs"
+	"github.com/bluenviron/mediamtx/internal/externalcmd"
 	"github.com/bluenviron/mediamtx/internal/logger"
+	"github.com/bluenviron/mediamtx/internal/stream"
 	"github.com/bluenviron/mediamtx/internal/zzverif/vnd"
 )
 
-// the path manager refuses every reader: this harness is about requests that do not create sessions
-type verifC43PM struct{ added int }
+// the path manager admits readers while allow is set
+type verifC43PM struct {
+	added int
+	allow bool
+}
+
+type verifC43Path struct{ name string }
+
+func (p *verifC43Path) Name() string                                  { return p.name }
+func (p *verifC43Path) SafeConf() *conf.Path                          { return &conf.Path{} }
+func (p *verifC43Path) ExternalCmdEnv() externalcmd.Environment       { return externalcmd.Environment{} }
+func (p *verifC43Path) RemovePublisher(defs.PathRemovePublisherReq)   {}
+func (p *verifC43Path) RemoveReader(defs.PathRemoveReaderReq)         {}
 
 func (pm *verifC43PM) SetHLSServer(*Server) []defs.Path { return nil }
 func (pm *verifC43PM) FindPathConf(defs.PathFindPathConfReq) (*defs.PathFindPathConfRes, error) {
 	return nil, &auth.Error{Wrapped: errors.New("denied")}
 }
-func (pm *verifC43PM) AddReader(defs.PathAddReaderReq) (*defs.PathAddReaderRes, error) {
+func (pm *verifC43PM) AddReader(req defs.PathAddReaderReq) (*defs.PathAddReaderRes, error) {
 	pm.added++
-	return nil, &auth.Error{Wrapped: errors.New("denied")}
+	if !pm.allow {
+		return nil, &auth.Error{Wrapped: errors.New("denied")}
+	}
+	st := &stream.Stream{OrigDesc: &description.Session{}, WriteQueueSize: 8, Parent: verifC43Parent{}}
+	if err := st.Initialize(); err != nil {
+		return nil, err
+	}
+	return &defs.PathAddReaderRes{Path: &verifC43Path{req.AccessRequest.Name}, Stream: st}, nil
 }
 
 type verifC43Parent struct{}
 
 func (verifC43Parent) Log(logger.Level, string, ...any) {}
 
-var (
-	verifC43SecretA = uuid.UUID{0xa1, 0xa2, 0xa3, 0xa4, 0xa5, 0xa6, 0x47, 0xa8, 0x89, 0xaa, 0xab, 0xac, 0xad, 0xae, 0xaf, 0xb0}
-	verifC43SecretB = uuid.UUID{0xb1, 0xb2, 0xb3, 0xb4, 0xb5, 0xb6, 0x47, 0xb8, 0x89, 0xba, 0xbb, 0xbc, 0xbd, 0xbe, 0xbf, 0xc0}
-)
-
 const (
-	verifC43IP      = "192.0.2.7"
-	verifC43OtherIP = "192.0.2.99"
+	verifC43IP       = "192.0.2.70"
+	verifC43PrefixIP = "192.0.2.7" // its text is a prefix of the creator's address
+	verifC43OtherIP  = "198.51.100.9"
 )
 
-// VerifMediaNeedsSession: media playlists and segments. Two muxers ('cam' with session A, 'other' with
-// session B, both created from 192.0.2.7), an optional CDN session on 'cam', an optional CDN secret.
-// The request reaches a muxer (with no instance it answers 500 there) only with the secret of a session of
-// that muxer from that session's IP, or with the CDN secret when the muxer has a CDN session; otherwise 401.
+func verifC43Get(path, rawQuery, remoteIP string) (*gin.Context, *http.Request) {
+	req := &http.Request{Method: http.MethodGet, URL: &url.URL{Path: path, RawQuery: rawQuery}, Header: http.Header{}, RemoteAddr: remoteIP + ":5000"}
+	ctx, _ := gin.CreateTestContext(httptest.NewRecorder())
+	ctx.Request = req
+	return ctx, req
+}
+
+// verifC43CreateSession asks for the multivariant playlist of a path as an authorised client: the real
+// session.initialize runs; serving the playlist then faults in the absent gohlslib muxer.
+func verifC43CreateSession(s *Server, mx *muxer, ip string) uuid.UUID {
+	ctx, _ := verifC43Get("/"+mx.pathName+"/index.m3u8", "cookieCheck=1", ip)
+	vnd.Panics(func() { s.httpServer.onRequest(ctx) })
+	vnd.Assume(len(mx.sessionsBySecret) == 1)
+	for secret := range mx.sessionsBySecret {
+		return secret
+	}
+	return uuid.UUID{}
+}
+
+// VerifMediaNeedsSession: media playlists and segments. Two muxers ('cam' and 'other'), each with one
+// session created through the real session set-up by an authorised client at 192.0.2.70; an optional CDN
+// session on 'cam', an optional CDN secret. A request passes the gate (and then faults in the absent
+// gohlslib muxer) only with the secret of a session of that muxer from that session's IP, or with the CDN
+// secret when the muxer has a CDN session; otherwise it is answered 401.
 func VerifMediaNeedsSession() {
-	vnd.GoMode("defer") // the server's own event loop answers getMuxer when the handler waits for it
+	vnd.GoMode("threads") // the server's own event loop answers getMuxer
 	cdnSecret := ""
 	if vnd.Bool("cdnConfigured") {
 		cdnSecret = "cdn-secret"
 	}
-	pm := &verifC43PM{}
+	pm := &verifC43PM{allow: true}
 	sctx, cancel := context.WithCancel(context.Background())
 	s := &Server{PathManager: pm, Parent: verifC43Parent{}, CDNSecret: cdnSecret, ctx: sctx, ctxCancel: cancel,
-		muxers: map[string]*muxer{}, chGetMuxer: make(chan serverGetMuxerReq)}
+		ExternalCmdPool: &externalcmd.Pool{}, muxers: map[string]*muxer{}, chGetMuxer: make(chan serverGetMuxerReq)}
 	s.httpServer = &httpServer{cdnSecret: cdnSecret, pathManager: pm, parent: s}
-	sa := &session{secret: verifC43SecretA, ip: verifC43IP, pathName: "cam", server: s}
-	sb := &session{secret: verifC43SecretB, ip: verifC43IP, pathName: "other", server: s}
-	cam := &muxer{pathName: "cam", parent: s, sessionsBySecret: map[uuid.UUID]*session{verifC43SecretA: sa}}
-	other := &muxer{pathName: "other", parent: s, sessionsBySecret: map[uuid.UUID]*session{verifC43SecretB: sb}}
+	newMuxer := func(name string) *muxer {
+		return &muxer{pathName: name, parent: s, sessionsBySecret: map[uuid.UUID]*session{},
+			instance: &muxerInstance{reader: &stream.Reader{}, bytesSent: &atomic.Uint64{}}}
+	}
+	cam, other := newMuxer("cam"), newMuxer("other")
+	s.muxers["cam"], s.muxers["other"] = cam, other
+	s.wg.Add(1)
+	go s.run()
+	secretA := verifC43CreateSession(s, cam, verifC43IP)
+	secretB := verifC43CreateSession(s, other, verifC43IP)
+	pm.allow = false
+	created := pm.added
 	hasCDNSession := vnd.Bool("cdnSession")
 	if hasCDNSession {
 		cam.cdnSession = &session{isCDN: true, pathName: "cam", server: s}
 	}
-	s.muxers["cam"], s.muxers["other"] = cam, other
 
 	dir := []string{"cam", "other", "none"}[vnd.Choose("dir", 3)]
-	file := []string{"stream.m3u8", "seg1.mp4", "seg1.ts", "part1.mp"}[vnd.Choose("file", 4)]
-	req := &http.Request{Method: http.MethodGet, URL: &url.URL{Path: "/" + dir + "/" + file}, Header: http.Header{}}
-	req.RemoteAddr = verifC43IP + ":5000"
-	sameIP := vnd.Bool("sameIP")
-	if !sameIP {
-		req.RemoteAddr = verifC43OtherIP + ":5000"
-	}
+	file := []string{"stream.m3u8", "seg1.mp4", "part1.mp"}[vnd.Choose("file", 3)]
+	remote := []string{verifC43IP, verifC43PrefixIP, verifC43OtherIP}[vnd.Choose("remoteIP", 3)]
+	ctx, req := verifC43Get("/"+dir+"/"+file, "", remote)
 	// the secret presented (if any)
 	var presented uuid.UUID
 	hasSecret := true
@@ -85,15 +128,15 @@ func VerifMediaNeedsSession() {
 		copy(presented[:], vnd.Bytes("secretBytes", 16))
 		req.URL.RawQuery = sessionQueryParamName + "=" + presented.String()
 	case 2: // session A's or B's secret in the cookie
-		presented = verifC43SecretA
+		presented = secretA
 		if vnd.Bool("cookieB") {
-			presented = verifC43SecretB
+			presented = secretB
 		}
 		req.Header.Set("Cookie", sessionCookieName+"="+presented.String())
 	default: // both: the cookie wins
-		presented = verifC43SecretB
-		req.Header.Set("Cookie", sessionCookieName+"="+verifC43SecretB.String())
-		req.URL.RawQuery = sessionQueryParamName + "=" + verifC43SecretA.String()
+		presented = secretB
+		req.Header.Set("Cookie", sessionCookieName+"="+secretB.String())
+		req.URL.RawQuery = sessionQueryParamName + "=" + secretA.String()
 	}
 	// the Authorization header
 	cdnPresented := false
@@ -107,34 +150,28 @@ func VerifMediaNeedsSession() {
 		cdnPresented = cdnSecret != "" && guess == "cdn-secret"
 	}
 
-	ctx, _ := gin.CreateTestContext(httptest.NewRecorder())
-	ctx.Request = req
-	s.wg.Add(1)
-	go s.run()
-	s.httpServer.onRequest(ctx)
-
+	reached := vnd.Panics(func() { s.httpServer.onRequest(ctx) }) // past the gate: the absent gohlslib muxer faults
 	status := ctx.Writer.Status()
-	reached := status == http.StatusInternalServerError // "muxer instance not available": past the gate
 	var mx *muxer
+	var own uuid.UUID
 	switch dir {
 	case "cam":
-		mx = cam
+		mx, own = cam, secretA
 	case "other":
-		mx = other
+		mx, own = other, secretB
 	}
 	authorized := false
 	if mx != nil {
 		if cdnPresented {
 			authorized = mx.cdnSession != nil
 		} else if hasSecret {
-			sx, ok := mx.sessionsBySecret[presented]
-			authorized = ok && sameIP && sx.ip == verifC43IP
+			authorized = presented == own && remote == verifC43IP
 		}
 	}
 	vnd.Assert(!reached || authorized, "media is served only with the secret of a session of that path from its IP, or with the CDN secret")
 	vnd.Assert(reached || status == http.StatusUnauthorized, "every other media request is answered 401")
 	vnd.Assert(!authorized || reached, "a session's own requests are served")
-	vnd.Assert(pm.added == 0 && len(cam.sessionsBySecret) == 1 && len(other.sessionsBySecret) == 1, "media requests create no session")
+	vnd.Assert(pm.added == created && len(cam.sessionsBySecret) == 1 && len(other.sessionsBySecret) == 1, "media requests create no session")
 	vnd.Cover(reached && !cdnPresented, "served through a session secret")
 	vnd.Cover(reached && cdnPresented, "served through the CDN secret")
 	vnd.Cover(!reached && hasSecret && mx != nil, "secret presented, refused")
@@ -143,7 +180,7 @@ func VerifMediaNeedsSession() {
 // VerifRefusedClientGetsNoSession: the multivariant playlist (where sessions are created) asked by a client
 // the path manager refuses: no session is registered and the answer is 401.
 func VerifRefusedClientGetsNoSession() {
-	vnd.GoMode("defer")
+	vnd.GoMode("threads")
 	pm := &verifC43PM{}
 	sctx, cancel := context.WithCancel(context.Background())
 	s := &Server{PathManager: pm, Parent: verifC43Parent{}, ctx: sctx, ctxCancel: cancel,
